@@ -213,9 +213,32 @@ func ext۰sort۰Ints(fr *frame, args []value) value {
 }
 func ext۰sort۰Strings(fr *frame, args []value) value {
 	x := args[0].([]value)
-	sort.Slice(x, func(i, j int) bool {
-		return x[i].(string) < x[j].(string)
-	})
+	concrete := true
+	for _, e := range x {
+		if _, ok := e.(string); !ok {
+			concrete = false
+		}
+	}
+	if concrete {
+		sort.Slice(x, func(i, j int) bool {
+			return x[i].(string) < x[j].(string)
+		})
+		return nil
+	}
+	// strings with symbolic bytes: insertion sort, each comparison a branch
+	less := func(a, b value) bool {
+		if as, ok := a.(string); ok {
+			if bs, ok := b.(string); ok {
+				return as < bs
+			}
+		}
+		return cur.branch(strLess(a, b, false))
+	}
+	for i := 1; i < len(x); i++ {
+		for j := i; j > 0 && less(x[j], x[j-1]); j-- {
+			x[j], x[j-1] = x[j-1], x[j]
+		}
+	}
 	return nil
 }
 func ext۰sort۰Float64s(fr *frame, args []value) value {
